@@ -103,6 +103,31 @@ class C08Mixin(object):
         rep["orig"] = self.ident(a)
         return rep
 
+    def ev_drop_handle(self, name, refs):
+        """The caller keeps some atoms of a private table and drops its reference to the table
+        object itself (a helper that builds a table and returns atoms or a formula)."""
+        import gc
+        kept = getattr(self, "kept", None)
+        if kept is None:
+            kept = self.kept = {}
+        kept[name] = [self.atom(name, r) for r in refs]
+        self.tables.pop(name, None)
+        gc.collect()
+        return "ok"
+
+    def ev_roundtrip_kept(self, name, i, how):
+        a = self.kept[name][i]
+        if how == "copy":
+            b = copy.copy(a)
+        elif how == "deepcopy":
+            b = copy.deepcopy(a)
+        else:
+            b = pickle.loads(pickle.dumps(a, int(how.split(":")[1])))
+        rep = self._report(b)
+        rep["same"] = b is a
+        rep["orig"] = self.ident(a)
+        return rep
+
     def ev_container(self, tbl, refs, how):
         atoms = [self.atom(tbl, r) for r in refs]
         box = {"l": atoms, "d": {a: i for i, a in enumerate(atoms)}, "t": tuple(atoms[:2])}
